@@ -81,9 +81,9 @@ impl Stdfs {
 
 //@ item memfs_abs file=src/sys/fs/memfs/vfs.rs block="impl Memfs" fn=_abs props=C05,C01,C12,C03,C09,C10,C06
 //@ sig pub(crate) fn _abs<T: AsRef<Path>>(&self, guard: &MemfsGuard, path: T) -> RvResult<PathBuf>
-//@ rw R5 1 ⟦PathError::Empty.into()⟧ => ⟦PathError::Empty_().into()⟧
-//@ rw R5 1 ⟦PathError::ParentNotFound(curr).into()⟧ => ⟦PathError::parent_not_found(curr).into()⟧
-//@ rw R8 1 ⟦curr.to_string()? == "/"⟧ => ⟦curr.to_string()?.eq_lit("/")⟧
+//@ rw R5 * ⟦PathError::Empty.into()⟧ => ⟦PathError::Empty_().into()⟧
+//@ rw R5 * ⟦PathError::ParentNotFound(curr).into()⟧ => ⟦PathError::parent_not_found(curr).into()⟧
+//@ rw R8 * ⟦curr.to_string()? == "/"⟧ => ⟦curr.to_string()?.eq_lit("/")⟧
 //@ ins before ⟦while let Ok(path) = path_buf.components().first_result() {⟧
             let ghost c0 = path_buf.comps();
             let ghost cwd0 = curr.comps();
@@ -110,9 +110,9 @@ pub fn _abs(guard: &MemfsGuard, path: &PathBuf) -> (r: RvResult<PathBuf>)
 impl Stdfs {
 //@ item stdfs_abs file=src/sys/fs/stdfs/mod.rs block="impl Stdfs" fn=abs props=C05,C12
 //@ sig pub fn abs<T: AsRef<Path>>(path: T) -> RvResult<PathBuf>
-//@ rw R5 1 ⟦PathError::Empty.into()⟧ => ⟦PathError::Empty_().into()⟧
-//@ rw R5 1 ⟦PathError::ParentNotFound(curr).into()⟧ => ⟦PathError::parent_not_found(curr).into()⟧
-//@ rw R8 1 ⟦curr.to_string()? == "/"⟧ => ⟦curr.to_string()?.eq_lit("/")⟧
+//@ rw R5 * ⟦PathError::Empty.into()⟧ => ⟦PathError::Empty_().into()⟧
+//@ rw R5 * ⟦PathError::ParentNotFound(curr).into()⟧ => ⟦PathError::parent_not_found(curr).into()⟧
+//@ rw R8 * ⟦curr.to_string()? == "/"⟧ => ⟦curr.to_string()?.eq_lit("/")⟧
 //@ ins before ⟦while let Ok(path) = path_buf.components().first_result() {⟧
             let ghost c0 = path_buf.comps();
             let ghost cwd0 = curr.comps();
